@@ -29,6 +29,7 @@
     html_event_kinds
     entity_table_resolves xml_html_entities_resolve merged_forest_is_normal
     open_tags_is_nesting_stack delivered_is_prefix_of_unbatched
+    handle_pi_total handle_pi_shape handle_pi_fields handle_pi_takes_one_qmark html_decl_ignored
 -/
 import Genshi.Lemmas.ParseHtml
 import Genshi.Lemmas.ParseXml
@@ -39,6 +40,8 @@ import Genshi.Lemmas.ParseSplit
 import Genshi.Lemmas.ParseKinds
 import Genshi.Lemmas.ParseState
 import Genshi.Lemmas.ParseEnv
+import Genshi.Lemmas.ParsePi
+import Genshi.Lemmas.ParseDecl
 namespace Genshi.Props.C07
 open Genshi Genshi.Parse
 
@@ -783,6 +786,86 @@ example : piEvent ['p','h','p',' ','e','c','h','o',' ','"','F','o','o','b','a','
       .pi ['p','h','p'] ['e','c','h','o',' ','"','F','o','o','b','a','r','"'] ∧
     piEvent ['p','h','p','?'] = .pi ['p','h','p'] [] ∧ piEvent ['p','h','p',' ','?'] = .pi ['p','h','p'] [] ∧
     piEvent [Char.ofNat 160, 'a', Char.ofNat 0x85, 'b', ' ', 'c'] = .pi ['a'] ['b', ' ', 'c'] := by
+  decide
+
+/-! ## `HTMLParser.handle_pi` (wave 4, package parse2)
+
+The callback gets everything between `<?` and `>`: for `<?php echo 1 ?>` the string `php echo 1 ?`. -/
+
+/-- **handle_pi_total.** `handle_pi` never raises, leaves `_open_tags` alone and enqueues exactly one
+    event, a PI — in every environment, for every string. -/
+theorem handle_pi_total (env : Env) (o : List Str) (s : Str) :
+    htmlStep env o (.pi s) = .ok (o, [piEvent s]) ∧ ∃ t d, piEvent s = .pi t d :=
+  ⟨rfl, piEvent_isPi s⟩
+
+/-- **handle_pi_shape.** For every string: the target of the PI event contains no white space
+    (`str.isspace`), and its data neither begins nor ends with white space (`strip` leaves it as it is). -/
+theorem handle_pi_shape (s t d : Str) (h : piEvent s = .pi t d) :
+    NoSp t ∧ Str.stripBy isPySpace d = d := by
+  rw [piEvent_eq] at h
+  exact piOf_shape _ t d h
+
+/-- **handle_pi_fields.** What target and data are — with or without the closing `?` of the XML form:
+    `ws target ws+ data ws` gives `(target, data)` for every white-space-free non-empty target and every
+    non-empty data without white space at its ends (white space inside the data is kept);
+    `ws target ws` gives `(target, '')`, also for the empty target. Every string is of one of the two shapes. -/
+theorem handle_pi_fields :
+    (∀ w0 t w1 d w2 : Str, AllSp w0 → NoSp t → t ≠ [] → AllSp w1 → w1 ≠ [] →
+        Str.stripBy isPySpace d = d → d ≠ [] → AllSp w2 →
+        piEvent (w0 ++ (t ++ (w1 ++ (d ++ w2))) ++ ['?']) = .pi t d ∧
+        ((w0 ++ (t ++ (w1 ++ (d ++ w2)))).getLast? ≠ some '?' →
+          piEvent (w0 ++ (t ++ (w1 ++ (d ++ w2)))) = .pi t d)) ∧
+    (∀ w0 t w2 : Str, AllSp w0 → NoSp t → AllSp w2 →
+        piEvent (w0 ++ (t ++ w2) ++ ['?']) = .pi t [] ∧
+        ((w0 ++ (t ++ w2)).getLast? ≠ some '?' → piEvent (w0 ++ (t ++ w2)) = .pi t [])) := by
+  refine ⟨?_, ?_⟩
+  · intro w0 t w1 d w2 h0 ht hne h1 h1ne hd hdne h2
+    refine ⟨?_, fun hq => ?_⟩
+    · rw [piEvent_eq, dropLastQ_snoc]; exact piOf_two_fields w0 t w1 d w2 h0 ht hne h1 h1ne hd hdne h2
+    · rw [piEvent_eq, dropLastQ_id _ hq]; exact piOf_two_fields w0 t w1 d w2 h0 ht hne h1 h1ne hd hdne h2
+  · intro w0 t w2 h0 ht h2
+    refine ⟨?_, fun hq => ?_⟩
+    · rw [piEvent_eq, dropLastQ_snoc]; exact piOf_one_field w0 t w2 h0 ht h2
+    · rw [piEvent_eq, dropLastQ_id _ hq]; exact piOf_one_field w0 t w2 h0 ht h2
+
+/-- **handle_pi_takes_one_qmark.** Only one `?` is taken off: `<?php??>` has the target `php?`
+    (bug-compatible: `data[:-1]` once), and a `?` that is not the last character stays. -/
+theorem handle_pi_takes_one_qmark :
+    piEvent ['p','h','p','?','?'] = .pi ['p','h','p','?'] [] ∧
+    piEvent ['a',' ','?',' '] = .pi ['a'] ['?'] ∧
+    ∀ x : Str, dropLastQ (x ++ ['?']) = x := by
+  refine ⟨by decide, by decide, dropLastQ_snoc⟩
+
+/-- non-vacuity of `handle_pi_fields`: `<?php echo "x" ?>` and `<?xml-stylesheet?>`, NBSP and U+0085 as white space -/
+example : AllSp [Char.ofNat 160] ∧ NoSp ['p','h','p'] ∧ AllSp [' ', Char.ofNat 0x85] ∧
+    Str.stripBy isPySpace ['e','c','h','o',' ','1'] = ['e','c','h','o',' ','1'] ∧
+    piEvent ([Char.ofNat 160] ++ (['p','h','p'] ++ ([' ', Char.ofNat 0x85] ++ (['e','c','h','o',' ','1'] ++ [' ']))) ++ ['?']) =
+      .pi ['p','h','p'] ['e','c','h','o',' ','1'] := by
+  decide
+
+/-- non-vacuity of `handle_pi_shape` -/
+example : piEvent ['a',' ','b',' ','c',' ','?'] = .pi ['a'] ['b',' ','c'] ∧ NoSp ['a'] ∧ ¬ NoSp ['b',' ','c'] := by decide
+
+/-! ## `handle_decl` / `unknown_decl` (wave 4, package parse2) -/
+
+/-- **html_decl_ignored.** DOCTYPE declarations and marked sections (`<![CDATA[…]]>`, `<![if …]>`: the callbacks
+    `handle_decl` / `unknown_decl`, which genshi does not override) enqueue nothing and leave `_open_tags` alone; taking
+    them out of the callback sequence — wherever they stand, in any read or in the `close()` batch — changes nothing: the
+    same events are delivered (text on both sides of a marked section is one TEXT event), the same exception is raised,
+    and a lazy consumer has received the same events before a failure. -/
+theorem html_decl_ignored (env : Env) (reads : List HtmlRead) (close : List (Item HtmlCb)) :
+    (∀ o s, htmlStep env o (.decl s) = .ok (o, [])) ∧
+    htmlParse env (reads.map dropDecl) (close.filter notDecl) = htmlParse env reads close := by
+  refine ⟨fun _ _ => rfl, ?_⟩
+  simp only [htmlParse, parse, generate_dropDecl]
+
+/-- non-vacuity: `<!DOCTYPE html><p>a<![CDATA[x]]>b` — the two texts around the marked section arrive as one -/
+example :
+    let env : Env := ⟨fun v => .ok v, asciiLower, Genshi.Gen.Output.parserEmptyElems⟩
+    let reads : List HtmlRead := [.text [.cb (.decl ['D']), .cb (.starttag ['p'] []), .cb (.data ['a'])],
+                                  .text [.cb (.decl ['C']), .cb (.data ['b'])]]
+    (reads.map dropDecl).map (fun r => match r with | .text l => l.length | _ => 0) = [2, 1] ∧
+    htmlParse env reads [] = ([.start ⟨[], ['p']⟩ [], .text ['a', 'b'] false, .end_ ⟨[], ['p']⟩], none) := by
   decide
 
 /-- `handle_charref` / `handle_entityref`: `&#65;`, `&#x41;`, out of range, `&nbsp;`, an unknown name -/
